@@ -113,10 +113,12 @@ bool Variable::addEquivalence(const VariablePtr &variable1, const VariablePtr &v
 bool Variable::addEquivalence(const VariablePtr &variable1, const VariablePtr &variable2, const std::string &mappingId, const std::string &connectionId)
 {
     bool added = Variable::addEquivalence(variable1, variable2);
-    variable1->pFunc()->setEquivalentMappingId(variable2, mappingId);
-    variable1->pFunc()->setEquivalentConnectionId(variable2, connectionId);
-    variable2->pFunc()->setEquivalentMappingId(variable1, mappingId);
-    variable2->pFunc()->setEquivalentConnectionId(variable1, connectionId);
+    if ((variable1 != nullptr) && (variable2 != nullptr)) {
+        variable1->pFunc()->setEquivalentMappingId(variable2, mappingId);
+        variable1->pFunc()->setEquivalentConnectionId(variable2, connectionId);
+        variable2->pFunc()->setEquivalentMappingId(variable1, mappingId);
+        variable2->pFunc()->setEquivalentConnectionId(variable1, connectionId);
+    }
 
     return added;
 }
